@@ -27,7 +27,8 @@ NOTE = ["Jinja2 and PyYAML are not modelled: they enter through the rendered and
 
 PLAIN_NAMES = [("nordicsemi.com", "nRF54H20_sample_root"), ("acme.example", "my_class-1"), ("Vendor Name", "class.with.dots")]
 NONASCII_NAMES = [("müller-geräte.example", "Ölpumpe_rad"), ("bücher.example", "Wärmepumpe_app"), ("中文.example", "クラス")]
-YAML_NAMES = [("123", "true"), ("null", "~"), ("a: b", "x #y"), ("0x10", "[a]"), (" lead", "trail "), ("Bob's sensor", "o'neill.example"), ("''", "it''s"), ("", "1_000"), ("2024-01-01", "é中"), ('q"uote', "back\\slash")]
+YAML_NAMES = [("123", "true"), ("null", "~"), ("a: b", "x #y"), ("0x10", "[a]"), (" lead", "trail "), ("Bob's sensor", "o'neill.example"), ("6e400001-b5a3-f393-e0a9-e50e24dcca9e", "6ba7b8109dad11d180b400c04fd430c8"),
+              ("urn:uuid:7d9f1e2a-4b3c-4d5e-8f60-a1b2c3d4e5f6", "{7d9f1e2a-4b3c-4d5e-8f60-a1b2c3d4e5f6}"), ("''", "it''s"), ("", "1_000"), ("2024-01-01", "é中"), ('q"uote', "back\\slash")]
 
 
 def cid(vendor, cls):
@@ -104,6 +105,8 @@ VERSION_FILES = {
     "file:dotted-beta-empty-tweak-first": ("EXTRAVERSION = beta.12\nVERSION_MAJOR = 0\nVERSION_MINOR = 9\nPATCHLEVEL = 1\nVERSION_TWEAK = 5\n", 0x00090105, "0.9.1-beta.12"),
     "file:unsupported-extra": ("VERSION_MAJOR = 2\nVERSION_MINOR = 1\nPATCHLEVEL = 0\nEXTRAVERSION = dev\n", 0x02010000, "2.1.0-alpha"),
     "file:no-tweak-no-extra": ("VERSION_MAJOR = 2\nVERSION_MINOR = 0\nPATCHLEVEL = 9\n", 0x02000900, "2.0.9"),
+    # calendar-style numbers: decimal fields written with leading zeros are decimal numbers (C19-q)
+    "file:zero-padded-fields": ("VERSION_MAJOR = 24\nVERSION_MINOR = 09\nPATCHLEVEL = 01\nVERSION_TWEAK = 07\n", (24 << 24) + (9 << 16) + (1 << 8) + 7, "24.09.01"),
     "file:explicit": ("APP_ROOT_SEQ_NUM = 300\nAPP_ROOT_VERSION = 3.1.4-beta\nVERSION_MAJOR = 9\nVERSION_MINOR = 9\nPATCHLEVEL = 9\n", 300, "3.1.4-beta"),
 }
 
@@ -209,7 +212,11 @@ def case_root(drv, seed, index, subset, names, varmode, res):
             text_v, seq_obj, ver_obj = VERSION_FILES[varmode]
             vf = os.path.join(d, "VERSION")
             open(vf, "w").write(text_v)
-            cfg.update(dict(ncs_build.read_version_file(vf)))
+            try:
+                cfg.update(dict(ncs_build.read_version_file(vf)))
+            except BaseException as e:  # noqa
+                return {"problems": [f"reading the VERSION file ({varmode}: {text_v!r}) failed: {type(e).__name__}: {e}"], "mismatch": None,
+                        "hash": hashlib.sha1(json.dumps([sorted(subset), varmode, index]).encode()).hexdigest()}
         tpl = str(common.REPO / "ncs" / "root_with_nordic_top_envelope.yaml.jinja2")
         try:
             text = ncs_build.render_template(tpl, cfg)
